@@ -28,6 +28,8 @@
  *         drv_faultx count SCRIPT           prints K (and "steps N" before)
  *         drv_faultx run SCRIPT FROM TO     k = FROM .. TO-1
  * env:    VT_TRACE=<path>  VT_SCRATCH=<dir for scratch files>
+ *         VT_VERBOSE=1 (stderr: errno and callback text of failed steps)
+ *         VT_EXACT=1 (experiment: numbers compared bit for bit)
  * exit:   0 done; 3 machinery error (reference run not clean/deterministic);
  *         95 restart request after an episode that ended with live blocks
  *         (so that LeakSanitizer blames the right episode); 96 LeakSanitizer
@@ -107,8 +109,12 @@ static void dg_cnum(dg_t *d, double complex v)
     dg_num(d, cimag(v));
 }
 
+static int g_exact;		/* VT_EXACT=1: bit-for-bit comparison (experiment) */
+
 static int num_close(double a, double b, double scale)
 {
+    if (g_exact)
+	return memcmp(&a, &b, sizeof(a)) == 0;
     if (isnan(a) || isnan(b))
 	return isnan(a) && isnan(b);
     if (isinf(a) || isinf(b))
@@ -2281,6 +2287,7 @@ int main(int argc, char **argv)
     long K;
 
     snprintf(g_scratch, sizeof(g_scratch), "%s", sd != NULL ? sd : "/tmp");
+    g_exact = getenv("VT_EXACT") != NULL;
     if (argc >= 2 && strcmp(argv[1], "list") == 0) {
 	for (int i = 0; i < NSCRIPTS; ++i)
 	    printf("%s\n", scripts[i].name);
